@@ -117,3 +117,9 @@ type File = vfs.File
 
 // NewStrictMemFS returns a new strict in-memory file system.
 func NewStrictMemFS() *MemFS { return gvfs.NewStrictMem() }
+
+// OpenOption is the option type of FS.Open.
+type OpenOption = gvfs.OpenOption
+
+// SnapshotFlagFilename is the name of the flag file of a finalised snapshot directory.
+var SnapshotFlagFilename = fileutil.SnapshotFlagFilename
